@@ -24,7 +24,7 @@ import (
 func init() {
 	register(stream{
 		name: "chain",
-		rule: "real signed delegations (sealed, then decoded) and invocations over a pool of 5 Ed25519 principals, checked with ExecutionAllowed / ExecutionAllowedWithArgsHook against a map-backed loader. Families: (principals) every chain of ≤ K links (K=2 quick, 3 thorough) over every (issuer, audience, subject∈{0,1,2,absent}) assignment × every invocation (issuer, subject) with a varying audience; (commands) conforming chains of 1–3 links with every assignment of a 6-command lattice (top, parent, child, sibling, shared textual prefix) to invocation and links; (time) every present/absent/past/future combination of not-before and expiration on the invocation and each link; (policy) constraining statements distributed over every link × argument maps, with and without an argument hook (replacing, failing); (random) chains of ≤ 8 (40 thorough) links with 0–2 deviations of any kind at any position, missing and duplicated proofs, irrelevant fields varied; (histories) the same invocation token validated several times while the loader's content, the argument hook and the wall clock (a bound two seconds away) change between validations. Added later: every scenario is decided FIVE ways on one token (twice in a row; through the hook entry point with an identity hook; with a hook that first validates an unrelated invocation; with a hook that first validates the scenario's repaired twin) and each verdict is held against the model; after construction the caller adds a key to the Args value it handed in (the token must not change); (twins) principals 5–9 = the key bytes of 0–4 under another key-type codec at every naming position; (key-types) RSA, P-256 and secp256k1 principals at every role, delegations decoded and as constructed; (command-pairs) every ordered pair of valid commands ≤ 4 (5) bytes over {/,a,b} as delegated/invoked and root/leaf, decided one after the other; (after-root, variant-cid, long-then-cut) proofs listed after the root, links named by another CID over the same digest, a 12-link chain alternating with cut versions of itself; (policy-long) 15…1000 always-true statements around the deciding one; (fresh-nbf, iat-future) constructed delegations with not-before = now, invocations issued in the future over not-yet-active links; (shared-policies) delegations built from policy slices that share one backing array; IsValidAt probes at years 1…100000 and 2^53-1 s.; (policy-optional) every operator over an optional selector on missing, null and present arguments at every link; (policy-neighbours) neighbouring links with policies of the same shape over different arguments, and the same statement over values of different kinds that print alike (100 / 100.0, bytes / their DAG-JSON map); (policy-beyond-int64) hand-assembled arguments and hook results holding an integer beyond int64 under every ordering statement; (policy-string-slice) slices of string arguments with multi-byte characters; (policy-whole-args) statements over the whole argument map and its value list, arguments supplied sorted and unsorted; (time-far) bounds some 285 years away; (command-multibyte) commands with multi-byte characters sharing prefixes that end inside or right after a character; (command-fold) commands differing only by lowercase letters that Unicode case folding equates (σ/ς, µ/μ, ſ/s, ı/i, θ/ϑ, β/ϐ); (command-concat) (delegated, invoked) pairs whose texts concatenate to the same string, decided one after the other in both orders. (case-twins) principals 13–17 = the identifier of 0–4 with the case of one letter flipped, at every naming position; (aligned-repeat) rule-conforming chains in which one delegation occurs twice or the subject reappears; (loader-error) a loader that reports an error of its own (not \"not found\") for one proof of a conforming chain, with and without handing the token over, both entry points; policies that use one selector twice (first where its failure does not decide) and connectives/quantifiers with one operand over missing required and one over missing optional data. Non-trivial = the chain has ≥ 1 link and at most two clause groups fail. Distinct = distinct protocol lines.",
+		rule: "real signed delegations (sealed, then decoded) and invocations over a pool of 5 Ed25519 principals, checked with ExecutionAllowed / ExecutionAllowedWithArgsHook against a map-backed loader. Families: (principals) every chain of ≤ K links (K=2 quick, 3 thorough) over every (issuer, audience, subject∈{0,1,2,absent}) assignment × every invocation (issuer, subject) with a varying audience; (commands) conforming chains of 1–3 links with every assignment of a 6-command lattice (top, parent, child, sibling, shared textual prefix) to invocation and links; (time) every present/absent/past/future combination of not-before and expiration on the invocation and each link; (policy) constraining statements distributed over every link × argument maps, with and without an argument hook (replacing, failing); (random) chains of ≤ 8 (40 thorough) links with 0–2 deviations of any kind at any position, missing and duplicated proofs, irrelevant fields varied; (histories) the same invocation token validated several times while the loader's content, the argument hook and the wall clock (a bound two seconds away) change between validations. Added later: every scenario is decided FIVE ways on one token (twice in a row; through the hook entry point with an identity hook; with a hook that first validates an unrelated invocation; with a hook that first validates the scenario's repaired twin) and each verdict is held against the model; after construction the caller adds a key to the Args value it handed in (the token must not change); (twins) principals 5–9 = the key bytes of 0–4 under another key-type codec at every naming position; (key-types) RSA, P-256 and secp256k1 principals at every role, delegations decoded and as constructed; (command-pairs) every ordered pair of valid commands ≤ 4 (5) bytes over {/,a,b} as delegated/invoked and root/leaf, decided one after the other; (after-root, variant-cid, long-then-cut) proofs listed after the root, links named by another CID over the same digest, a 12-link chain alternating with cut versions of itself; (policy-long) 15…1000 always-true statements around the deciding one; (fresh-nbf, iat-future) constructed delegations with not-before = now, invocations issued in the future over not-yet-active links; (shared-policies) delegations built from policy slices that share one backing array; IsValidAt probes at years 1…100000 and 2^53-1 s.; (policy-optional) every operator over an optional selector on missing, null and present arguments at every link; (policy-neighbours) neighbouring links with policies of the same shape over different arguments, and the same statement over values of different kinds that print alike (100 / 100.0, bytes / their DAG-JSON map); (policy-non-finite) −Inf, +Inf and NaN arguments (own and from the hook) under every ordering statement; histories with a hook that overrides values inside the writeable clone it was given; (policy-beyond-int64) hand-assembled arguments and hook results holding an integer beyond int64 under every ordering statement; (policy-string-slice) slices of string arguments with multi-byte characters; (policy-whole-args) statements over the whole argument map and its value list, arguments supplied sorted and unsorted; (time-far) bounds some 285 years away; (command-multibyte) commands with multi-byte characters sharing prefixes that end inside or right after a character; (command-fold) commands differing only by lowercase letters that Unicode case folding equates (σ/ς, µ/μ, ſ/s, ı/i, θ/ϑ, β/ϐ); (command-concat) (delegated, invoked) pairs whose texts concatenate to the same string, decided one after the other in both orders. (case-twins) principals 13–17 = the identifier of 0–4 with the case of one letter flipped, at every naming position; (aligned-repeat) rule-conforming chains in which one delegation occurs twice or the subject reappears; (loader-error) a loader that reports an error of its own (not \"not found\") for one proof of a conforming chain, with and without handing the token over, both entry points; policies that use one selector twice (first where its failure does not decide) and connectives/quantifiers with one operand over missing required and one over missing optional data. Non-trivial = the chain has ≥ 1 link and at most two clause groups fail. Distinct = distinct protocol lines.",
 		run:  runChainStream,
 		eval: evalChain,
 		cmp:  cmpChain,
@@ -37,6 +37,11 @@ func init() {
 // first when several fail is not part of any property. The direction names the property concerned.
 func cmpChain(line, g, m string) string {
 	if strings.HasPrefix(line, "chain.validat") {
+		// chain.validat <kind> <nbf> <exp> <t>: the property fixes the answer STRICTLY inside and strictly outside the window; at
+		// an instant that equals a bound it says nothing (inclusive and exclusive bounds both satisfy it), so nothing is compared
+		if f := strings.Fields(line); len(f) >= 5 && (f[4] == f[2] || f[4] == f[3]) {
+			return ""
+		}
 		if g != m {
 			return "IsValidAt differs"
 		}
@@ -45,6 +50,12 @@ func cmpChain(line, g, m string) string {
 	if strings.HasPrefix(line, "go.chain.sharedpolicies") {
 		if g != "ok" {
 			return "go-allows-model-denies:policy" // a statement of a chain stopped binding (or a delegation was changed)
+		}
+		return ""
+	}
+	if strings.HasPrefix(line, "go.chain.sharedproofs") {
+		if g != "ok" {
+			return "go-allows-model-denies:command,principal" // a chain that widens / breaks was allowed because of an earlier one
 		}
 		return ""
 	}
@@ -349,6 +360,83 @@ func classOf(err error) string {
 
 var errHook = errors.New("hook failed")
 
+// sharedProofs: the caller keeps using (and changing) the proof slice it handed to invocation.New — the next invocation is
+// built from the same backing array with one link replaced, or from a shared prefix extended twice. Each invocation is decided
+// on the proofs IT names at the time of the check: a chain that widens the command or breaks the alignment is refused whatever
+// was validated before.
+func sharedProofs() (out string) {
+	defer func() {
+		if r := recover(); r != nil {
+			out = fmt.Sprint("panic ", r)
+		}
+	}()
+	ps := principals()
+	mk := func(desc string) sealedDlg {
+		d, err := buildDlg(desc)
+		if err != nil {
+			panic(err)
+		}
+		return d
+	}
+	// 0 → 1 → 2, subject 0
+	for round := 0; round < 3; round++ {
+		// (commands of this check's own, different in every round: these delegations have not been seen by any earlier validation)
+		base := fmt.Sprintf("/shared-proofs-%d-%d", round, time.Now().UnixNano()%1000003)
+		root := mk("0~1~0~" + hxs(base) + "~P()~-~-")
+		leaf := mk("1~2~0~" + hxs(base) + "~P()~-~-")
+		narrowRoot := mk("0~1~0~" + hxs(base+"/bar") + "~P()~-~-") // under it, the leaf's command is a widening
+		foreignRoot := mk("3~1~3~" + hxs(base) + "~P()~-~-")        // another subject: the chain is not the subject's
+		loader := mapLoader{root.cid: root.tok, leaf.cid: leaf.tok, narrowRoot.cid: narrowRoot.tok, foreignRoot.cid: foreignRoot.tok}
+		cmd := command.MustParse(base)
+		prf := make([]cid.Cid, 0, 8)
+		prf = append(prf, leaf.cid, root.cid)
+		good, err := invocation.New(ps[2].did, ps[0].did, cmd, prf)
+		if err != nil {
+			return "fixture: " + err.Error()
+		}
+		if err := good.ExecutionAllowed(loader); err != nil {
+			return "a conforming chain is refused: " + err.Error()
+		}
+		// the caller rewrites its slice for the next invocation
+		prf[1] = narrowRoot.cid
+		wide, err := invocation.New(ps[2].did, ps[0].did, cmd, prf)
+		if err != nil {
+			return "fixture: " + err.Error()
+		}
+		if err := wide.ExecutionAllowed(loader); err == nil {
+			return "after a conforming chain was validated, a chain whose leaf widens the root's command is allowed (the caller reused its proof slice)"
+		}
+		prf[1] = foreignRoot.cid
+		foreign, err := invocation.New(ps[2].did, ps[0].did, cmd, prf)
+		if err != nil {
+			return "fixture: " + err.Error()
+		}
+		if err := foreign.ExecutionAllowed(loader); err == nil {
+			return "after a conforming chain was validated, a chain rooted at another subject is allowed (the caller reused its proof slice)"
+		}
+		// two proof lists grown from one shared prefix with spare capacity
+		prefix := make([]cid.Cid, 0, 4)
+		prefix = append(prefix, leaf.cid)
+		a := append(prefix, root.cid)
+		ia, err := invocation.New(ps[2].did, ps[0].did, cmd, a)
+		if err != nil {
+			return "fixture: " + err.Error()
+		}
+		if err := ia.ExecutionAllowed(loader); err != nil {
+			return "a conforming chain is refused: " + err.Error()
+		}
+		b := append(prefix, narrowRoot.cid) // overwrites a[1] in the shared backing array
+		ib, err := invocation.New(ps[2].did, ps[0].did, cmd, b)
+		if err != nil {
+			return "fixture: " + err.Error()
+		}
+		if err := ib.ExecutionAllowed(loader); err == nil {
+			return "a widening chain is allowed after a conforming one was validated (two proof lists sharing a backing array)"
+		}
+	}
+	return "ok"
+}
+
 // sharedPolicies: delegations built in this process from policy slices that share one backing array (each policy is
 // the previous one with a statement appended). Validating an invocation under one chain must not change what another
 // delegation demands: the admin chain refuses arguments that violate its own statement before and after.
@@ -452,6 +540,9 @@ func evalChain(line string) (out string, rd string) {
 	}
 	if f[0] == "go.chain.sharedpolicies" {
 		return sharedPolicies(), line
+	}
+	if f[0] == "go.chain.sharedproofs" {
+		return sharedProofs(), line
 	}
 	if f[0] == "chain.history" {
 		h, err := newHistory(f)
@@ -1020,6 +1111,25 @@ func runChainStream(c *ctx) error {
 				}
 			}
 		}
+		// arguments that are not finite numbers (−Inf, +Inf, NaN; they cannot be sealed, so only the invocation's own arguments and
+		// hook results can hold them): ordered with nothing
+		for _, pl := range []string{"P(cle(2e61,d4059000000000000))", "P(clt(2e61,d4059000000000000))", "P(cge(2e61,dc059000000000000))", "P(cgt(2e61,dc059000000000000))", "P(ceq(2e61,d4059000000000000))"} {
+			for _, a := range []string{"m(61:dfff0000000000000)", "m(61:d7ff0000000000000)", "m(61:d7ff8000000000001)", "m(61:d4049000000000000)"} {
+				for n := 1; n <= 2; n++ {
+					for pos := 0; pos < n; pos++ {
+						s := conforming(n)
+						s.links[pos].pol = pl
+						s.args = a
+						c.emitScenario(s, "policy-non-finite")
+						h := conforming(n)
+						h.links[pos].pol = pl
+						h.args = "m(61:d4049000000000000)"
+						h.hook = a
+						c.emitScenario(h, "policy-non-finite")
+					}
+				}
+			}
+		}
 		// slices of STRING arguments that hold multi-byte characters (a slice counts characters, not bytes)
 		for _, pl := range []string{"P(!(ceq(" + hxs(".p[0:6]") + ",s" + hxsRaw("/café/") + ")))", "P(ceq(" + hxs(".p[0:6]") + ",s" + hxsRaw("/café/") + "))", "P(ceq(" + hxs(".p[1:3]") + ",s" + hxsRaw("ca") + "))",
 			"P(ceq(" + hxs(".p[-3:]") + ",s" + hxsRaw("txt") + "))", "P(k(" + hxs(".p[:5]") + "," + hxs("/caf*") + "))", "P(ceq(" + hxs(".p[4:5]") + ",s" + hxsRaw("é") + "))"} {
@@ -1307,6 +1417,7 @@ func runChainStream(c *ctx) error {
 		}
 	}
 	c.emit("go.chain.sharedpolicies 0", "chain", true, "shared-policies")
+	c.emit("go.chain.sharedproofs 0", "chain", true, "shared-proofs")
 	// (4b) long policies: k always-true statements followed (or preceded) by the one that decides, on each link
 	for _, k := range []int{15, 16, 17, 63, 64, 65, 127, 128, 129, 255, 256, 257, 1000} {
 		if k > 129 && !c.thoro && k != 257 {
@@ -1464,7 +1575,12 @@ func runChainStream(c *ctx) error {
 			p.args = passArgs
 			hist(p, "all/-,all/"+failArgs+",all/-,all/"+passArgs+",all/!")
 			hist(p, "all/"+failArgs+",all/-,all/"+failArgs)
+			// a hook that changes a value IN the writeable clone it was given (the clone's map is the clone's own): the token's
+			// arguments are what they were, before and after
+			p.args = passArgs
+			hist(p, "all/~"+failArgs+",all/-,all/~"+failArgs+",all/-")
 			p.args = failArgs
+			hist(p, "all/~"+passArgs+",all/-,all/-")
 			hist(p, "all/-,all/"+passArgs+",all/-,all/"+failArgs)
 			hist(p, "all/"+passArgs+",all/-,all/"+passArgs+",all/-")
 			// time passes: a bound two seconds away on link pos (expiration or not-before), or on the invocation
@@ -1679,6 +1795,28 @@ func (h *history) step(st string) (out string) {
 	case "!":
 		err = h.inv.ExecutionAllowedWithArgsHook(loader, func(args.ReadOnly) (*args.Args, error) { return nil, errHook })
 	default:
+		if strings.HasPrefix(p[1], "~") {
+			// the hook overrides values in the writeable clone: existing keys through the clone's value map, new keys with Add
+			hn, e := parseNode(p[1][1:])
+			if e != nil || hn.Kind() != datamodel.Kind_Map {
+				return "bad-hook"
+			}
+			err = h.inv.ExecutionAllowedWithArgsHook(loader, func(ro args.ReadOnly) (*args.Args, error) {
+				cl := ro.WriteableClone()
+				it := hn.MapIterator()
+				for !it.Done() {
+					k, v, _ := it.Next()
+					ks, _ := k.AsString()
+					if _, present := cl.Values[ks]; present {
+						cl.Values[ks] = v
+					} else if e := cl.Add(ks, v); e != nil {
+						return nil, e
+					}
+				}
+				return cl, nil
+			})
+			return classOf(err)
+		}
 		hn, e := parseNode(p[1])
 		if e != nil {
 			return "bad-hook"
